@@ -14,13 +14,20 @@ namespace PhononModel.RecipOps
 abbrev M3 := Fin 3 → Fin 3 → Int
 
 def M3.beq (a b : M3) : Bool :=
-  (List.finRange 3).all fun i => (List.finRange 3).all fun j => a i j == b i j
+  a 0 0 == b 0 0 && a 0 1 == b 0 1 && a 0 2 == b 0 2 &&
+  a 1 0 == b 1 0 && a 1 1 == b 1 1 && a 1 2 == b 1 2 &&
+  a 2 0 == b 2 0 && a 2 1 == b 2 1 && a 2 2 == b 2 2
 /-- `rot.T` -/
 def M3.transpose (a : M3) : M3 := fun i j => a j i
 /-- `-rot` -/
 def M3.neg (a : M3) : M3 := fun i j => -a i j
 /-- `-np.eye(3)` -/
 def M3.negOne : M3 := fun i j => if i = j then -1 else 0
+
+/-- `np.eye(3)` -/
+def M3.one : M3 := fun i j => if i = j then 1 else 0
+/-- `np.dot(a, b)` -/
+def M3.mul (a b : M3) : M3 := fun i j => a i 0 * b 0 j + a i 1 * b 1 j + a i 2 * b 2 j
 
 /-- `collect_unique_rotations`: first occurrences, in order -/
 def collectUnique (rots : List M3) : List M3 :=
@@ -31,5 +38,17 @@ def pointgroupOps (rots : List M3) (tr : Bool) : List M3 × List M3 :=
   let p := collectUnique rots
   let rr := p.map M3.transpose
   (p, if tr && !(p.any fun r => M3.beq r M3.negOne) then rr ++ p.map (fun r => M3.neg (M3.transpose r)) else rr)
+
+/-- the nine entries as data (a function-valued matrix recomputes its entries at every access) -/
+def M3.toArr (a : M3) : Array Int := #[a 0 0, a 0 1, a 0 2, a 1 0, a 1 1, a 1 2, a 2 0, a 2 1, a 2 2]
+
+/-- Executable certificate: the rotation list is the element list of a matrix group
+(contains the identity, closed under products, every element has a two-sided inverse in the list). -/
+def isGroupOk (rots : List M3) : Bool :=
+  let arrs := rots.map M3.toArr
+  let one := M3.toArr M3.one
+  arrs.contains one &&
+  (rots.all fun a => rots.all fun b => arrs.contains (M3.toArr (M3.mul a b))) &&
+  (rots.all fun a => rots.any fun b => M3.toArr (M3.mul a b) == one && M3.toArr (M3.mul b a) == one)
 
 end PhononModel.RecipOps
